@@ -333,7 +333,7 @@ def shrink(harness, cfg, cls):
             return cls == "crash"
         return any(bad_class(v) == cls for _, _, v in r)
     body = [o for o in cfg if o != "init"]
-    small = vlib.ddmin(body, lambda c: fails(["init"] + c), max_tests=250)
+    small = vlib.ddmin(body, lambda c: fails(["init"] + c), max_tests=100)
     return ["init"] + small
 
 
@@ -363,7 +363,7 @@ def run(res):
         return
     h = vlib.build_harness("c10")
 
-    ncfg = 1500 if res.tier == "quick" else 40000
+    ncfg = 1500 if res.tier == "quick" else 25000
     cfgs = [WITNESS_17, WITNESS_CS, WITNESS_NAME] + small_exhaustive(None if res.tier == "thorough" else 120) + [gen_config(rng) for _ in range(ncfg)]
     with ThreadPoolExecutor(4) as ex:
         cfgs = [c for part in ex.map(lambda p: expand_all(p, h), chunks(cfgs, 4)) for c in part]
